@@ -275,6 +275,24 @@ func runC10(c *core.Ctx) {
 			}
 		}
 	}
+	// --- an else clause of a case is the fallback wherever it stands among the when clauses --------------------------------------
+	if c.Shard == 17%c.NShards && c.Begin("case-else-position") {
+		for _, cs := range []struct {
+			src  string
+			want map[int]string
+		}{
+			{"{% case x %}{% else %}E{% when 1 %}one{% endcase %}", map[int]string{1: "one", 2: "E"}},
+			{"{% case x %}{% when 2 %}two{% else %}E{% when 1 %}one{% endcase %}", map[int]string{1: "one", 2: "two", 3: "E"}},
+			{"{% case x %}{% else %}E{% when 1, 2 %}few{% when 3 %}three{% endcase %}", map[int]string{1: "few", 2: "few", 3: "three", 4: "E"}},
+			{"{% case x %}{% when 1 %}one{% else %}E{% endcase %}", map[int]string{1: "one", 2: "E"}},
+		} {
+			for x, want := range cs.want {
+				expectOut(c, e, cs.src, map[string]any{"x": x}, want, "case-else-position", "case renders the first when clause listing a value equal to its subject, otherwise the else clause - wherever the else clause stands", nil)
+				c.Obs("case_else_position_cases", 1)
+				c.Distinct("caseelse", cs.src, fmt.Sprint(x))
+			}
+		}
+	}
 	// --- case/when is defined through ==: for every pair of Go universe values the two agree ----------------------------------
 	{
 		U := gen.PlainDataUniverse()
@@ -291,7 +309,12 @@ func runC10(c *core.Ctx) {
 				}
 				eq := core.Run(e, "{% if a == b %}W{% else %}E{% endif %}", b)
 				cs := core.Run(e, "{% case a %}{% when b %}W{% else %}E{% endcase %}", b)
-				c.Eval(2)
+				sw := core.Run(e, "{% case b %}{% when a %}W{% else %}E{% endcase %}", b)
+				c.Eval(3)
+				if !sw.Same(cs) {
+					c.Violate("case|asymmetric|"+kindOf(U[ai])+"~"+kindOf(U[bi]), "== is symmetric, so {% case a %}{% when b %} and {% case b %}{% when a %} select alike",
+						map[string]any{"a": gen.Describe(uu[ai].Go), "b": gen.Describe(uu[bi].Go), "case_a_when_b": cs.Brief(), "case_b_when_a": sw.Brief()})
+				}
 				c.Obs("case_vs_eq_pairs", 1)
 				c.Distinct("casevseq", uu[ai].Name, uu[bi].Name)
 				if !eq.Same(cs) || eq.Panic != "" {
